@@ -172,16 +172,16 @@ func runOneRace(c rcCase) (sx.V, sx.V, rcCase) {
 	default:
 		rpcc, err := cl.Client()
 		if err != nil {
-			cl.Kill()
+			boundedKill(cl)
 			return nil, nil, c
 		}
 		pluginPid = cl.ReattachConfig().Pid
 		raw, err := rpcc.Dispense("vp")
 		if err != nil {
-			cl.Kill()
+			boundedKill(cl)
 			return nil, nil, c
 		}
-		caller := raw.(vp.Caller)
+		caller := bounded(raw.(vp.Caller))
 		dispenseAndCall := func(g int) {
 			for k := 0; k < c.K; k++ {
 				raw, err := rpcc.Dispense("vp")
@@ -189,7 +189,7 @@ func runOneRace(c rcCase) (sx.V, sx.V, rcCase) {
 					atomic.AddInt32(&fails, 1)
 					continue
 				}
-				cc := raw.(vp.Caller)
+				cc := bounded(raw.(vp.Caller))
 				if out, err := cc.Call(vp.Req{Op: "echo", Data: []byte{byte(g), byte(k)}}); err != nil || len(out.Data) != 2 {
 					atomic.AddInt32(&fails, 1)
 				}
@@ -262,7 +262,7 @@ func runOneRace(c rcCase) (sx.V, sx.V, rcCase) {
 		case "dispense":
 			spawn(c.N, dispenseAndCall)
 			wg.Wait()
-			cl.Kill()
+			boundedKill(cl)
 		case "broker":
 			n := c.N
 			if c.Mux && n > 1 {
@@ -283,7 +283,7 @@ func runOneRace(c rcCase) (sx.V, sx.V, rcCase) {
 			}
 			spawn(n, brokerOps)
 			wg.Wait()
-			cl.Kill()
+			boundedKill(cl)
 		case "shutdown":
 			// operations in flight while the client is shut down from several goroutines at once
 			spawn(c.N/2+1, func(g int) { dispenseAndCall(g) })
@@ -297,7 +297,7 @@ func runOneRace(c rcCase) (sx.V, sx.V, rcCase) {
 			fails = 0 // operations cut short by the shutdown fail legitimately
 		}
 	}
-	cl.Kill()
+	boundedKill(cl)
 	time.Sleep(300 * time.Millisecond) // let the plugin's race log reach the disk
 	rh, firstH := raceReports(prefix, os.Getpid())
 	rp, firstP := raceReports(prefix, pluginPid)
@@ -378,16 +378,16 @@ func runAcceptClose(c rcCase, prefix string) (sx.V, sx.V, rcCase) {
 		cl := plugin.NewClient(cfg)
 		rpcc, err := cl.Client()
 		if err != nil {
-			cl.Kill()
+			boundedKill(cl)
 			continue
 		}
 		pid := cl.ReattachConfig().Pid
 		raw, err := rpcc.Dispense("vp")
 		if err != nil {
-			cl.Kill()
+			boundedKill(cl)
 			continue
 		}
-		caller := raw.(vp.Caller)
+		caller := bounded(raw.(vp.Caller))
 		var wg sync.WaitGroup
 		stop := make(chan struct{})
 		for g := 0; g < c.N; g++ {
